@@ -137,7 +137,7 @@ func genLifecycle(x *simkit.Exec, defaults cmdDefaults) (*lcScenario, error) {
 	sc.realGateway = x.Bool("realGateway", 1, 2)
 	// (only where blocks do not overlap: an excluded block that overlaps others legitimately keeps
 	// its samples served twice)
-	if x.Bool("noCompactMarks", 1, 3) && (sc.layout == "aligned" || sc.layout == "two-groups") {
+	if x.Bool("noCompactMarks", 1, 2) && (sc.layout == "aligned" || sc.layout == "two-groups") {
 		for i := range sc.blocks {
 			if x.Bool("noCompact", 1, 3) {
 				sc.noCompact = append(sc.noCompact, i)
@@ -215,6 +215,7 @@ type lcOpts struct {
 type lcResult struct {
 	compactorOps   int
 	syncReads      int
+	syncReadKinds  []string // class of each sync read of the execution, in order (e.g. "get:deletion-mark.json")
 	quiescent      bool
 	plans          []planRecord
 	crashed        bool
@@ -417,6 +418,11 @@ func (sc *lcScenario) execute(x *simkit.Exec, salt string, o lcOpts) lcResult {
 						}
 						if kind == "get" || kind == "iter" || kind == "exists" || kind == "attributes" {
 							res.syncReads++
+							cls := kind
+							if i := strings.LastIndexByte(name, '/'); i >= 0 && kind != "iter" {
+								cls += ":" + name[i+1:]
+							}
+							res.syncReadKinds = append(res.syncReadKinds, cls)
 							if res.syncReads == o.syncReadFail && !(o.bodyFail && kind == "get") {
 								failedIter = curIter
 								res.intercepted = true
